@@ -14,7 +14,7 @@ static std::string lower_ascii(const std::string &s) {
 bool id_equal(const JV &a, const JV &b) {
 	if (a.t != b.t) return false;
 	if (a.t == JV::Str) return a.s == b.s;
-	if (a.t == JV::Num) return a.d == b.d;
+	if (a.t == JV::Num) return a.d == b.d || std::fabs(a.d - b.d) <= 4.5e-16 * std::max(std::fabs(a.d), std::fabs(b.d));
 	return false;
 }
 
@@ -310,7 +310,7 @@ bool Model::do_setcall(int c, const JV &req, const JV &params, bool is_call) {
 
 	Routed r; r.caller = c; r.owner = e.owner; r.has_id = id != nullptr; if (id) r.caller_id = *id;
 	r.path = e.path; r.is_call = is_call; r.created = host->vnow(); r.tprec = tprec;
-	r.timeout_ns = (uint64_t)(to * 1e9); r.deadline = r.created + r.timeout_ns;
+	r.timeout_ns = to * 1e9 >= 1.8e19 ? UINT64_MAX : (uint64_t)(to * 1e9); r.deadline = r.timeout_ns > (1ULL << 62) ? (1ULL << 62) + r.created : r.created + r.timeout_ns;
 	if (is_call) r.params = val ? *val : JV::obj();
 	else { r.params = JV::obj(); r.params.set("value", *val); }
 	int ref = (int)routed.size();
